@@ -245,14 +245,15 @@ func init() {
 			{H: "H_C02_NoTrace", K: 28, U: 3, Covers: 2},
 			{H: "H_C02_MutexNoTrace", K: 28, U: 3, Covers: 1},
 			{H: "H_C02_WriterPreference", K: 26, U: 3, TimeoutSec: 900},
-			// bug hunting only in the quick tier (short solver budget; the full proof is in thorough)
-			{H: "H_C02_WriterPreference2", K: 30, U: 3, Preempt: 2, TimeoutSec: 420, QueryMs: 150000},
+			// one preemption in the quick tier (measured: unsat in ~6 min; two and three preemptions in thorough)
+			{H: "H_C02_WriterPreference2", K: 30, U: 3, Preempt: 1, TimeoutSec: 740, QueryMs: 700000},
 			{H: "H_C01_Mutex3", K: 26, U: 3, Only: "stuck/"},
 			{H: "H_C01_RW_2R1W", K: 26, U: 3, Only: "stuck/"},
 			{H: "H_C01_RW_1R2W", K: 26, U: 3, Only: "stuck/"},
 		},
 		Thorough: []Job{
 			{H: "H_C01_RWSym3", K: 30, U: 3, Only: "stuck/", TimeoutSec: 7000, QueryMs: 6000000},
+			{H: "H_C02_WriterPreference2", K: 30, U: 3, Preempt: 2, TimeoutSec: 7000, QueryMs: 6000000},
 			{H: "H_C02_WriterPreference2", K: 30, U: 3, Preempt: 3, TimeoutSec: 7000, QueryMs: 6000000},
 		},
 		Bounds:  "3-4 goroutines per scenario: long-lived reader + cancelled write-waiter + late reader; holder + cancellable writer + cancellable reader followed by TryLock probes at quiescence (no trace); Mutex analogue; writer preference with ghost flags; plus the lost-wake-up (stuck at quiescence) class of the three C01 scenarios. K=26-28, U=3.",
@@ -276,7 +277,7 @@ func init() {
 			{H: "H_C04_NilRoutine", K: 36, U: 3, Prune: true, Preempt: 2, Only: "routine-overlap|wait-return|setstate-channel|panic/", TimeoutSec: 900},
 			{H: "H_C04_StateEmpty", K: 36, U: 3, Prune: true, Preempt: 2, Only: "routine-overlap|wait-return|setstate-channel|panic/", TimeoutSec: 900},
 			// bug hunting only in the quick tier (short solver budget; the full proof is in thorough)
-			{H: "H_C04_State2", K: 44, U: 3, Prune: true, Preempt: 2, Only: "routine-overlap|wait-return|setstate-channel|panic/", TimeoutSec: 420, QueryMs: 150000},
+			{H: "H_C04_State2", K: 44, U: 3, Prune: true, Preempt: 1, Only: "routine-overlap|wait-return|setstate-channel|panic/", TimeoutSec: 700, QueryMs: 400000},
 		},
 		Thorough: []Job{
 			{H: "H_C04_State2", K: 44, U: 3, Prune: true, Preempt: 2, Only: "routine-overlap|wait-return|setstate-channel|panic/", TimeoutSec: 6000, QueryMs: 5000000},
@@ -293,7 +294,7 @@ func init() {
 			{H: "H_C05_TwoDrivers", K: 44, U: 4, Prune: true, Preempt: 2, TimeoutSec: 900},
 			{H: "H_C05_RetryReplaced", K: 48, U: 3, Prune: true, Preempt: 2, TimeoutSec: 900},
 			// bug hunting only in the quick tier (short solver budget; the full proof is in thorough)
-			{H: "H_C05_StateVsRestart", K: 48, U: 4, Prune: true, Preempt: 2, TimeoutSec: 420, QueryMs: 150000},
+			{H: "H_C05_StateVsRestart", K: 48, U: 4, Prune: true, Preempt: 1, TimeoutSec: 740, QueryMs: 400000},
 		},
 		Thorough: []Job{
 			{H: "H_C05_StateVsRestart", K: 48, U: 4, Prune: true, Preempt: 2, TimeoutSec: 6000, QueryMs: 5000000},
@@ -379,29 +380,29 @@ func init() {
 			{H: "H_C16_OnceCancel", K: 34, U: 2, Preempt: 1, Covers: 1, TimeoutSec: 700, QueryMs: 300000},
 			{H: "H_C16_OnceRetry", K: 40, U: 3, TimeoutSec: 900},
 			{H: "H_C16_Memo", K: 34, U: 3},
-			// bug hunting only in the quick tier (short solver budget; the full proof is in thorough)
-			{H: "H_C16_Once2", K: 34, U: 2, Preempt: 1, TimeoutSec: 420, QueryMs: 150000},
 		},
 		Thorough: []Job{
+			{H: "H_C16_Once2", K: 30, U: 2, Preempt: 1, TimeoutSec: 3000, QueryMs: 2500000},
 			{H: "H_C16_Once2", K: 34, U: 3, Preempt: 2, TimeoutSec: 6000, QueryMs: 5000000},
 			{H: "H_C16_Once", K: 40, U: 3, Preempt: 1, TimeoutSec: 6000, QueryMs: 5000000},
 		},
-		Bounds:  "promise.Once: 2 concurrent Resolve callers with a function that fails on its first call or not (symbolic); initiating caller cancellable at any moment + a live caller; sequential error-retry-success-kept; schedules with at most 1 preemption in the quick tier (thorough: 2), Resolve's retry loop unwound twice (unwinding query reported); memo: 3 concurrent callers, success or error, all schedules",
+		Bounds:  "promise.Once: 2 concurrent Resolve callers with a function that fails on its first call or not (symbolic); initiating caller cancellable at any moment + a live caller; sequential error-retry-success-kept; schedules with at most 1 preemption in the quick tier (thorough: 2; and the three-thread scenarios Once2/Once), Resolve's retry loop unwound twice (unwinding query reported); memo: 3 concurrent callers, success or error, all schedules",
 		Outside: "more than 2 concurrent Once callers in the quick tier (thorough: 3); more than one failing call",
 	}
 	plans["C18"] = Plan{
 		Quick: []Job{
 			{H: "H_C18_Limit1Small", K: 34, U: 3, Preempt: 1, TimeoutSec: 900},
 			{H: "H_C18_Unlimited", K: 34, U: 3},
-			// bug hunting only in the quick tier (short solver budget; the full proof is in thorough)
-			{H: "H_C18_Limit2", K: 40, U: 4, Preempt: 1, TimeoutSec: 420, QueryMs: 150000},
+			{H: "H_C18_Limit2Small", K: 34, U: 4, Preempt: 2, TimeoutSec: 700, QueryMs: 400000},
+			{H: "H_C18_InitialWatch", K: 34, U: 4},
 		},
 		Thorough: []Job{
 			{H: "H_C18_Limit1Small", K: 34, U: 3, Preempt: 2, Prune: true, TimeoutSec: 3000},
 			{H: "H_C18_Limit1", K: 44, U: 4, Preempt: 1, TimeoutSec: 6000, QueryMs: 5000000},
+			{H: "H_C18_Limit2Small", K: 34, U: 4, TimeoutSec: 6000, QueryMs: 5000000},
 			{H: "H_C18_Limit2", K: 44, U: 4, Preempt: 1, TimeoutSec: 6000, QueryMs: 5000000},
 		},
-		Bounds:  "limit 1: job 0 enqueued, then Enqueue(1 job)+WaitIdle || Enqueue(1 job), schedules with at most 1 preemption (thorough: 2; and the larger limit-1 / limit-2+WatchState scenarios); unlimited: Enqueue(2) + WaitIdle, all schedules; jobs of arbitrary relative duration (they finish whenever scheduled); K<=34",
+		Bounds:  "limit 1: job 0 enqueued, then Enqueue(1 job)+WaitIdle || Enqueue(1 job), schedules with at most 1 preemption (thorough: 2; and the larger limit-1 / limit-2+WatchState scenarios); limit 2: Enqueue(3 jobs)+WaitIdle, at most 2 preemptions (thorough: all schedules); limit 1 with two initial elements + WatchState until idle, all schedules; unlimited: Enqueue(2) + WaitIdle, all schedules; jobs of arbitrary relative duration (they finish whenever scheduled); K<=34",
 		Outside: "more than 4 jobs, more than 2 producers",
 	}
 
@@ -418,7 +419,8 @@ func init() {
 		Quick: []Job{
 			{H: "H_C08_Error", K: 40, U: 3, Prune: true},
 			{H: "H_C08_Script", K: 60, U: 3, Prune: true, Preempt: 2, Fixes: []string{"op0=0,op1=4"}, TimeoutSec: 1200},
-			{H: "H_C08_Script", K: 60, U: 3, Prune: true, Preempt: 2, Fixes: []string{"op0=4,op1=0"}, TimeoutSec: 1200},
+			{H: "H_C08_Script", K: 60, U: 3, Prune: true, Preempt: 2, Fixes: []string{"op0=3,op1=0"}, TimeoutSec: 1200},
+			{H: "H_C08_Script", K: 60, U: 3, Prune: true, Preempt: 2, Fixes: []string{"op0=0,op1=2"}, TimeoutSec: 1200},
 			{H: "H_C08_Script", K: 60, U: 3, Prune: true, Preempt: 2, Fixes: []string{"op0=2,op1=0"}, TimeoutSec: 1200},
 			{H: "H_C08_Script", K: 60, U: 3, Prune: true, Preempt: 2, Fixes: []string{"op0=0,op1=3"}, TimeoutSec: 1200},
 		},
@@ -429,7 +431,7 @@ func init() {
 			},
 			split(Job{H: "H_C08_Script", K: 60, U: 3, Prune: true, Preempt: 2, Fixes: scriptCases(5), TimeoutSec: 6000}, 8),
 		),
-		Bounds:  "RefCount with a target container and release functions that check the obligations; quick: resolver error + 4 scripts of 2 operations out of {release ref, add+release second ref, SetContext(B), ClearContext, released()} with keep-unreferenced symbolic; thorough: all 25 scripts, released() racing the last Release, slow resolver superseded; schedules with at most 2 preemptions; K=60",
+		Bounds:  "RefCount with a target container and release functions that check the obligations; quick: resolver error + 5 scripts of 2 operations out of {release ref, add+release second ref, SetContext(B), ClearContext, released()} with keep-unreferenced symbolic; thorough: all 25 scripts, released() racing the last Release, slow resolver superseded; schedules with at most 2 preemptions; K=60",
 		Outside: "more than 2 references / 3 resolver calls; 'shortly after' is read as 'by quiescence'",
 	}
 	plans["C13"] = Plan{
